@@ -181,13 +181,8 @@ fn header_raw_names() {
     assert!(eq_bytes(Header::Accept.raw(), b"Accept"));
 }
 
-// C16: MediaType::try_from(as_str(m)) == m (complete for the two canonical strings)
-#[kani::proof]
-#[kani::unwind(20)]
-fn mediatype_roundtrip() {
-    let m = if kani::any() { MediaType::PlainText } else { MediaType::ApplicationJson };
-    assert!(MediaType::try_from(m.as_str().as_bytes()) == Ok(m));
-}
+// NOTE: MediaType::try_from (String::from_utf8 + Unicode trim) does not finish under CBMC (15 min for the two
+// canonical strings); it is not covered.
 
 // the ASSUMED contract of `find` in the Verus units: first occurrence, or None iff there is none
 const H: usize = 10;
@@ -249,90 +244,6 @@ fn find_first_match_4() {
     check_find(4);
 }
 
-
-// C05: byte-level composition of Response::write_all into a Vec<u8> sink, against an independent
-// serializer: 2 versions x 11 codes x {no body, body of 0..=3 symbolic bytes} x deprecation x encoding x
-// content type x Allow list of 0..=3 methods.  BOUNDED (bodies <= 3 bytes, Allow <= 3 entries).
-fn ref_serialize(v: Version, s: StatusCode, cl: Option<i32>, json: bool, depr: bool, enc: bool, allow: &[Method], body: &[u8], out: &mut Vec<u8>) {
-    out.extend_from_slice(v.raw());
-    out.push(b' ');
-    let n = status_number(s);
-    out.push(b'0' + (n / 100) as u8);
-    out.push(b'0' + (n / 10 % 10) as u8);
-    out.push(b'0' + (n % 10) as u8);
-    out.extend_from_slice(b" \r\nServer: Firecracker API\r\nConnection: keep-alive\r\n");
-    if !allow.is_empty() {
-        out.extend_from_slice(b"Allow: ");
-        let mut i = 0;
-        while i < allow.len() {
-            if i > 0 {
-                out.extend_from_slice(b", ");
-            }
-            out.extend_from_slice(allow[i].raw());
-            i += 1;
-        }
-        out.extend_from_slice(b"\r\n");
-    }
-    if depr {
-        out.extend_from_slice(b"Deprecation: true\r\n");
-    }
-    if let Some(n) = cl {
-        out.extend_from_slice(b"Content-Type: ");
-        out.extend_from_slice(if json { b"application/json" } else { b"text/plain" });
-        out.extend_from_slice(b"\r\nContent-Length: ");
-        // n is in 0..=9 in this harness
-        out.push(b'0' + n as u8);
-        out.extend_from_slice(b"\r\n");
-        if enc {
-            out.extend_from_slice(b"Accept-Encoding: identity\r\n");
-        }
-    }
-    out.extend_from_slice(b"\r\n");
-    out.extend_from_slice(body);
-}
-
-#[kani::proof]
-#[kani::unwind(16)]
-fn response_write_all() {
-    use crate::common::Body;
-    use crate::response::Response;
-    let v = any_version();
-    let s = any_status();
-    let mut r = Response::new(v, s);
-    let mut cl: Option<i32> = match s { StatusCode::Continue | StatusCode::NoContent => None, _ => Some(0) };
-    let bytes: [u8; 3] = kani::any();
-    let blen: usize = kani::any();
-    kani::assume(blen <= 3);
-    let has_body: bool = kani::any();
-    let mut body: &[u8] = &[];
-    if has_body {
-        body = &bytes[..blen];
-        r.set_body(Body::new(body.to_vec()));
-        cl = Some(blen as i32);
-    }
-    let json: bool = kani::any();
-    if !json {
-        r.set_content_type(MediaType::PlainText);
-    }
-    let depr: bool = kani::any();
-    if depr {
-        r.set_deprecation();
-    }
-    let enc: bool = kani::any();
-    if enc {
-        r.set_encoding();
-    }
-    let na: usize = kani::any();
-    kani::assume(na <= 3);
-    let ms = [any_method(), any_method(), any_method()];
-    let mut i = 0;
-    while i < na {
-        r.allow_method(ms[i]);
-        i += 1;
-    }
-    let mut out: Vec<u8> = Vec::new();
-    assert!(r.write_all(&mut out).is_ok());
-    let mut want: Vec<u8> = Vec::new();
-    ref_serialize(v, s, cl, json, depr, enc, &ms[..na], body, &mut want);
-    assert!(out == want);
-}
+// NOTE: a harness for the byte-level composition of Response::write_all into a Vec<u8> (against an independent
+// serializer) was tried and did not finish in 27 min even for bodies <= 3 bytes; the Allow and Deprecation
+// lines are checked by kani/harness_response.rs instead.
